@@ -48,10 +48,24 @@ func resolveMacroAnchors(p *Prog, a *Anchors, r *Report) *macroAnchors {
 				return
 			}
 			execsBody := false
-			for _, g := range withClosures(topLevel(f)) {
+			runsWrapper := func(g *ssa.Function) bool {
 				for _, b := range g.Blocks {
 					for _, x := range b.Instrs {
 						if ci, isCall := x.(ssa.CallInstruction); isCall && ci.Common().StaticCallee() != nil && ci.Common().StaticCallee().Name() == "Execute" && len(ci.Common().Args) > 0 && loadsField(ci.Common().Args[0], "tagMacroNode", "wrapper") {
+							return true
+						}
+					}
+				}
+				return false
+			}
+			for _, g := range withClosures(topLevel(f)) {
+				if runsWrapper(g) {
+					execsBody = true
+				}
+				// … or calls (one hop) the function that runs a macro's body
+				for _, b := range g.Blocks {
+					for _, x := range b.Instrs {
+						if ci, isCall := x.(ssa.CallInstruction); isCall && ci.Common().StaticCallee() != nil && p.InPkg(ci.Common().StaticCallee()) && ci.Common().StaticCallee().Blocks != nil && runsWrapper(ci.Common().StaticCallee()) {
 							execsBody = true
 						}
 					}
